@@ -451,6 +451,8 @@ pub trait Vec1View<T>: TIter<T> {
         V2: Vec1View<T2>,
         F: FnMut(Self::SliceOutput<'_>, V2::SliceOutput<'_>) -> OT,
     {
+        // `other` is sliced with the unchecked accessor at the same positions as `self`
+        assert!(other.len() >= self.len(), "the second series is shorter than the first");
         let iter = (1..self.len() + 1)
             .zip(std::iter::repeat_n(0, window - 1).chain(0..self.len()))
             .map(|(end, start)| unsafe {
@@ -685,6 +687,8 @@ pub trait Vec1View<T>: TIter<T> {
         F: FnMut(Option<(T, T2)>, (T, T2)) -> OT,
     {
         let len = self.len();
+        // `other` is read with unchecked accessors at the same positions as `self`
+        assert!(other.len() >= len, "the second series is shorter than the first");
         // an empty input needs no window; otherwise a zero window would leave `out` unwritten
         assert!(window > 0 || len == 0, "window must be greater than 0");
         let window = window.min(len);
@@ -921,6 +925,8 @@ pub trait Vec1View<T>: TIter<T> {
         F: FnMut(Option<usize>, usize, (T, T2)) -> OT,
     {
         let len = self.len();
+        // `other` is read with unchecked accessors at the same positions as `self`
+        assert!(other.len() >= len, "the second series is shorter than the first");
         // an empty input needs no window; otherwise a zero window would leave `out` unwritten
         assert!(window > 0 || len == 0, "window must be greater than 0");
         let window = window.min(len);
